@@ -653,7 +653,27 @@ func (f *mutFlow) useCont(v ssa.Value, ref ssa.Instruction) {
 		}
 	case *ssa.Field, *ssa.Index, *ssa.Lookup, *ssa.Extract, *ssa.TypeAssert, *ssa.MakeInterface, *ssa.ChangeInterface, *ssa.Phi, *ssa.Convert, *ssa.Next, *ssa.Range:
 		val := ref.(ssa.Value)
-		if !holds || !e.refBearing(val.Type()) {
+		_, isRange := ref.(*ssa.Range)
+		if !holds || (!isRange && !e.refBearing(val.Type())) {
+			return
+		}
+		if isRange {
+			f.virt(val, hb&(mutRef|mutCont), f.lineOf(c.root), hline)
+			return
+		}
+		if ex, ok := ref.(*ssa.Extract); ok {
+			if _, fromCall := ex.Tuple.(*ssa.TypeAssert); !fromCall {
+				// a key / element delivered by an iterator or a comma-ok lookup: read out of the container
+				if hb&mutRef != 0 {
+					f.add(val, mutRef|mutShort)
+				} else {
+					f.virt(val, mutRef, hline)
+				}
+				return
+			}
+		}
+		if _, isNext := ref.(*ssa.Next); isNext {
+			f.virt(val, hb&(mutRef|mutCont), f.lineOf(c.root), hline)
 			return
 		}
 		if lk, ok := ref.(*ssa.Lookup); ok && lk.X != v {
